@@ -24,6 +24,95 @@ def harness_cmd(path, prop):
     return [path, "--tmp=" + os.path.dirname(path)]
 
 
+def build_e2e(wd):
+    """the real program with the injection module harness/verif_logmod.c (same sanitizers)"""
+    import subprocess
+    r = core.repo()
+    out = os.path.join(wd, "e2e")
+    os.makedirs(os.path.join(out, "mods"), exist_ok=True)
+    os.makedirs(os.path.join(wd, "e2e_run"), exist_ok=True)
+    defs = ['-DSYSCONFDIR="/nonexistent"', '-DMODULESDIR="%s/mods"' % out, '-DLOGDIR="%s"' % os.path.join(wd, "e2e_run")]
+    srcs = [os.path.join(r, "src", f) for f in sorted(os.listdir(os.path.join(r, "src"))) if f.endswith(".c")]
+    path, log = core.compile_c(out, "iauthd-c", srcs, extra=defs, libs=["-levent", "-ldl", "-lm", "-rdynamic"])
+    if not path:
+        return None, log
+    flags = core.BASE_CFLAGS + core.SAN_FLAGS + core.include_flags(wd) + ["-fPIC", "-shared"]
+    cmd = ["gcc"] + flags + [os.path.join(core.HARNESS_DIR, "verif_logmod.c"), "-o", os.path.join(out, "mods", "verif_logmod.so")]
+    p = subprocess.run(cmd, stdout=subprocess.PIPE, stderr=subprocess.STDOUT, text=True)
+    if p.returncode != 0:
+        return None, " ".join(cmd) + "\n" + p.stdout[-3000:]
+    return out, ""
+
+
+def e2e_cases(prop, tier, seed):
+    """reload histories for the real daemon: a first file, then messages, reloads (valid sections and
+    files the parser refuses) and looks at the files.  The first file is always accepted (a daemon
+    that refuses its first file does not start)."""
+    rng = core.rng_for(seed, "log-e2e")
+    n = 10 if tier == "quick" else 150
+    cases = []
+    counter = [0]
+    for i in range(n):
+        files = rng.sample(["a.log", "b.log", "c.log", "A.log"], rng.choice([2, 3]))
+        nonempty = lambda sc: sc if sc else [("*.*", "str", ["file:" + files[0]])]
+        sec = nonempty(gen_section(rng, files, max_entries=4))
+        ops = ["read " + _hex(render_body(sec))]
+        for _ in range(rng.choice([2, 3, 4])):
+            ops += messages(counter, facs=rng.sample(FACS, 2), sevs=rng.sample(range(5), 2))
+            r = rng.random()
+            if r < 0.3:
+                # a file the parser refuses: nothing may change, and the next good reload must take effect
+                # (seeded change C18-12x3 left a rescan hold behind after a refused reload)
+                ops.append("read " + _hex(render_body(sec, trailer="logs { \"x.*\" ( a, ;\n")))
+                ops += messages(counter, facs=rng.sample(FACS, 2), sevs=rng.sample(range(5), 2))
+            sec = nonempty(mutate_section(rng, sec, files, 0.0) if rng.random() < 0.7 else gen_section(rng, files, max_entries=4))
+            ops.append("read " + _hex(render_body(sec)))
+        ops += messages(counter, facs=FACS[:3], sevs=[0, 2, 3])
+        ops.append("files")
+        cases.append(core.Case("e2elog/%d" % i, ops, tags={"e2e": True}))
+    return cases
+
+
+def _e2e_proj(i, rec):
+    """model vs real program: what the injected messages did to the files (the real program writes
+    more chatter of its own than the in-process harness: start-up, signals, module loading)"""
+    if not rec.startswith("files"):
+        return rec.split(" ")[0] if rec.split(" ")[0] in ("dead", "exit", "fault") else "-"
+    got = parse_files(rec) or {}
+    out = []
+    for n in sorted(got):
+        lines, pb = _norm_lines(got[n], True, _E2E_TESTS.get("cur"))
+        out.append((n, tuple(lines) if lines is not None else pb))
+    return tuple(x for x in out if x[1])
+
+
+_E2E_TESTS = {}
+
+
+class _E2EProjector:
+    def for_case(self, case):
+        tests = set(_unhex(o.split(" ")[3]) for o in case.body() if o.startswith("msg ") and len(o.split(" ")) >= 4)
+
+        def proj(i, rec):
+            _E2E_TESTS["cur"] = tests
+            return _e2e_proj(i, rec)
+        return proj
+
+    def __call__(self, i, rec):
+        return _e2e_proj(i, rec)
+
+
+def extra_runs(prop, tier, seed, wd):
+    if prop != "C18":
+        return []
+    bindir, log = build_e2e(wd)
+    if not bindir:
+        return [{"name": "e2e (real program)", "error": "the real program does not build: " + log[-1500:]}]
+    cmd = ["/bin/sh", "-c", "cd %s/e2e_run && exec python3 %s %s" % (wd, os.path.join(core.HARNESS_DIR, "e2e_log_driver.py"), bindir)]
+    return [{"name": "e2e: real main.c (SIGUSR1 reload handler), module.c, log.c, config.c; messages injected by verif_logmod.so",
+             "cmd": cmd, "cases": e2e_cases(prop, tier, seed), "projector": _E2EProjector(), "workers": 8}]
+
+
 def model_args(prop):
     return ["model"]
 
@@ -194,7 +283,7 @@ def parse_files(rec):
         lines = []
         for l in (ls.split(",") if ls else []):
             m = ""
-            while l[:1] in "!~":
+            while l[:1] and l[:1] in "!~":
                 m += l[0]
                 l = l[1:]
             lines.append((m, _unhex(l)))
